@@ -158,9 +158,15 @@ def make_entries(defs, cases, vectors, seed):
     n = 0
     for c in cases:
         sig = c["sig"]
-        for _ in range(vectors):
+        views = [i for i, p in enumerate(sig["params"]) if p["k"] in ("slice", "str")]
+        # the last vector of a signature with slice/string parameters always carries the C-land empty view {NULL, 0}
+        # (what a default-constructed span / string_view passes); the others are drawn at random
+        for vi in range(vectors + (1 if views else 0)):
             args = {"self": g.value(sig["self"], "param") if sig["self"]["k"] in ("struct", "enum") else None,
                     "params": [g.value(p, "param") for p in sig["params"]]}
+            if vi == vectors:
+                for i in views:
+                    args["params"][i] = {"null": True, "items": []}
             retv = g.value(sig["ret"], "ret")
             write = None
             if sig["write"]:
